@@ -112,6 +112,9 @@ func (w *Wallet) getActiveKeyset(mintURL string) (*crypto.WalletKeyset, error) {
 	if activeChanged {
 		// inactivate previous active
 		activeKeyset.Active = false
+		// the keyset in memory does not have the latest counter. Use the one from
+		// the db, otherwise saving the keyset would set the counter back
+		activeKeyset.Counter = w.db.GetKeysetCounter(activeKeyset.Id)
 		mint.inactiveKeysets[activeKeyset.Id] = activeKeyset
 		if err := w.db.SaveKeyset(&activeKeyset); err != nil {
 			return nil, err
@@ -156,6 +159,7 @@ func (w *Wallet) getActiveKeyset(mintURL string) (*crypto.WalletKeyset, error) {
 		// check if input_fee_ppk changed for current active
 		if activeInputFeePpk != activeKeyset.InputFeePpk {
 			activeKeyset.InputFeePpk = activeInputFeePpk
+			activeKeyset.Counter = w.db.GetKeysetCounter(activeKeyset.Id)
 			if err := w.db.SaveKeyset(&activeKeyset); err != nil {
 				return nil, err
 			}
